@@ -1,7 +1,7 @@
 #!/bin/bash
 # usage: seedcheck.sh <patch.diff>      — applies the patch to /repo, runs every property's quick
-# check, prints which raise VIOLATION, and restores /repo. Used to test the checks against
-# seeded changes; never leaves /repo modified.
+# check (one process, one load: `goskvet ALL`), prints which raise VIOLATION, and restores /repo.
+# Used to test the checks against seeded changes; never leaves /repo modified.
 set -u
 P=$(realpath "$1")
 cd /repo || exit 2
@@ -9,13 +9,7 @@ if [ -n "$(git status --porcelain)" ]; then echo "ERROR: /repo not clean"; exit 
 git apply "$P" || { echo "ERROR: patch does not apply"; exit 2; }
 trap 'git -C /repo checkout -- . ; git -C /repo clean -fdq' EXIT
 cd /verif
-hits=""
-for p in $(bin/goskvet -list); do
-  out=$(bin/check $p quick 2>&1); rc=$?
-  if [ $rc -ne 0 ]; then
-    hits="$hits $p"
-    echo "== $p exit=$rc"
-    echo "$out" | grep -E '^  violation:' | cut -c1-420 | head -6
-  fi
-done
-echo "DETECTED_BY:${hits:- none}"
+out=$(bin/check -q ALL quick 2>&1)
+echo "$out" | grep -E '^  violation:' | cut -c1-420 | sort -u | head -12
+hits=$(echo "$out" | grep -E '^VIOLATION' | sed 's/.*property=\([A-Z0-9]*\).*/\1/' | sort -u | tr '\n' ' ')
+echo "DETECTED_BY: ${hits:-none}"
